@@ -1,6 +1,7 @@
 package props
 
 import (
+	"sync"
 	"crypto/x509"
 	"fmt"
 	"io"
@@ -586,4 +587,43 @@ func targetMinVersion(tg Target) uint16 {
 		return tls.VersionTLS12 // crypto/tls client default
 	}
 	return tls.VersionTLS10
+}
+
+// SharedSpecTarget: the base target's spec built ONCE and that one object handed to every
+// connection (fingerprint once / keep the spec in a variable, dial many times).  Connections
+// of such a target must be made one after the other: ApplyPreset writes into the spec.
+func SharedSpecTarget(base Target) Target {
+	var once sync.Once
+	var shared *tls.ClientHelloSpec
+	var serr error
+	t := base
+	t.Name = "shared:" + base.Name
+	t.Spec = func() (*tls.ClientHelloSpec, error) {
+		once.Do(func() {
+			if base.Spec != nil {
+				shared, serr = base.Spec()
+				return
+			}
+			sp, err := tls.UTLSIdToSpec(base.ID)
+			shared, serr = &sp, err
+		})
+		return shared, serr
+	}
+	return t
+}
+
+// SharedSpecTargets: a fixed selection of parrots, fingerprinted copies and custom specs.
+func SharedSpecTargets() []Target {
+	var out []Target
+	for _, pn := range []string{"Chrome_133", "Chrome_120", "Chrome_102", "Firefox_120", "Firefox_105", "Safari_16_0", "IOS_14", "Edge_106", "Chrome_115_PQ"} {
+		p := ParrotByName(pn)
+		out = append(out, SharedSpecTarget(Target{Name: p.Name, ID: p.ID}))
+		if ft, err := FingerprintedTarget(Target{Name: p.Name, ID: p.ID}, "example.test"); err == nil && len(out)%2 == 0 {
+			out = append(out, SharedSpecTarget(ft))
+		}
+	}
+	for i := 0; i < 6; i++ {
+		out = append(out, SharedSpecTarget(CustomTarget(i)))
+	}
+	return out
 }
